@@ -9,7 +9,8 @@ from cpverif.runner import subcheck
 @st.composite
 def st_case(draw, families=("sl", "nldf", "sdmx", "nldf+sdmx")):
     model = draw(G.st_model(families=families))
-    bases = ("sto-3g", "6-31g") if not model["sdmx"] else ("sto-3g", "6-31g")
+    # SDMX contracts the AOs shell by shell: include a generally contracted basis (several radial functions per shell)
+    bases = ("sto-3g", "6-31g") if not model["sdmx"] else ("sto-3g", "6-31g", "cc-pvdz")
     mol = draw(G.st_mol(max_atoms=3 if model["nldf"] is None else 2, bases=bases, max_elec=18, levels=(0, 1)))
     return {"mol": mol, "model": model, "dm": draw(G.st_dm()), "calc": draw(G.st_calc())}
 
